@@ -8,6 +8,13 @@
 #include <frg/rbtree.hpp>
 #include <frg/detection.hpp>
 
+#ifdef FRG_VERIF_HOOKS
+#include <frg/verif_hooks.hpp>
+#endif
+#ifndef FRG_VERIF_POINT
+#define FRG_VERIF_POINT(site, obj, v) do { } while(0)
+#endif
+
 namespace frg FRG_VISIBILITY {
 
 namespace {
@@ -326,6 +333,7 @@ private:
 		auto object = new (p) freelist;
 
 		auto bkt = &_bkts[slb->index];
+		FRG_VERIF_POINT("slab.free.before_bucket_lock", this, slb->index);
 		unique_lock<Mutex> bucket_guard(bkt->bucket_mutex);
 		{
 			bool reinsert_into_bucket = !slb->available;
@@ -451,6 +459,7 @@ void *slab_pool<Policy, Mutex>::allocate(size_t length) {
 			// Call into the Policy without holding locks.
 			bucket_guard.unlock();
 
+			FRG_VERIF_POINT("slab.allocate.before_construct_slab", this, index);
 			auto slb = _construct_slab(index);
 			if(!slb)
 				return nullptr;
@@ -471,6 +480,7 @@ void *slab_pool<Policy, Mutex>::allocate(size_t length) {
 			tree_guard.unlock();
 
 			// Finally, re-lock the bucket to attach the new slab.
+			FRG_VERIF_POINT("slab.allocate.before_attach_slab", this, index);
 			bucket_guard.lock();
 
 			FRG_ASSERT(slb->available);
